@@ -96,7 +96,9 @@ def ops_for(dims, labels, tier, compose=False):
     if not compose and nd >= 1:
         ops.append(["rollaxis", -1, 0])
     nn = "n" if "n" not in dims else "n2"
-    for pos in list(range(nd + 1)) + [-1]:
+    # (negative positions count from the end as in numpy.expand_dims: -1 is "after the last dimension", which the library documents, -2 the
+    # position before it, ... -(nd+1) the front)
+    for pos in list(range(nd + 1)) + [-1] + ([] if compose else list(range(-2, -(nd + 2), -1))):
         ops.append(["newaxis", nn, pos, None])
         if not compose:
             ops.append(["newaxis", nn, pos, [5, 6, 4]])
@@ -174,8 +176,8 @@ def apply_ref(ra, op):
         return permute(ra, order)
     if k == "newaxis":
         name, pos, values = op[1], op[2], op[3]
-        if pos == -1:
-            pos = nd
+        if pos < 0:
+            pos += nd + 1
         lab = [None] if values is None else list(values)
         dims = list(ra.dims); dims.insert(pos, name)
         labels = list(ra.labels); labels.insert(pos, lab)
